@@ -142,3 +142,21 @@ Proof.
           apply IHp. rewrite assoc_type_add. destruct (String.eqb t u); eauto. }
   rewrite G. cbn. split; [intros [H|[pm H]]; [exact H|discriminate]|auto].
 Qed.
+
+(* the two halves of the property, at the level of the value sets: every value the template gives a property of a type is accepted
+   by the clause generated for that type and property; a value the template does not give it is rejected *)
+Corollary template_passes_its_own_clauses rs r t p v :
+  In r rs -> fst r = Some t -> In (p, v) (snd r) ->
+  clause_accepts (clause_of (p, values_of (gen_rules rs) t p)) v = true.
+Proof.
+  intros Hr Ht Hp. rewrite clause_accepts_members. apply existsb_exists. exists v. split; [|apply String.eqb_refl].
+  apply values_exactly_the_template. exists r. auto.
+Qed.
+
+Corollary foreign_value_is_rejected rs t p w :
+  (forall r, In r rs -> fst r = Some t -> ~ In (p, w) (snd r)) ->
+  clause_accepts (clause_of (p, values_of (gen_rules rs) t p)) w = false.
+Proof.
+  intros H. rewrite clause_accepts_members. apply Bool.not_true_is_false. intros E. apply existsb_exists in E as (x & Hx & Ex).
+  apply String.eqb_eq in Ex. subst x. apply values_exactly_the_template in Hx as (r & Hr & Ht & Hp). exact (H r Hr Ht Hp).
+Qed.
